@@ -171,6 +171,13 @@ def core_check(prop, tier, seed_):
             "c2s_calls": info["history_calls"], "invariants": kit.invariants, "action_properties": kit.properties,
             "gamma_families": sorted({r.get("gamma", "") for r in recs}),
         }
+        opres = Counter((r["op"]["name"], r["res"]) for r in recs)
+        cov["per_kit"][kname]["op_result_counts"] = {f"{a}->{b}": n for (a, b), n in sorted(opres.items())}
+        # non-vacuity: every call of the model's alphabet was exercised on the implementation, and changed something
+        never = sorted({o["name"] for o in mc["alphabet"]} - {r["op"]["name"] for r in recs})
+        cov["per_kit"][kname]["alphabet_ops_never_replayed"] = never
+        if never:
+            raise MachineryError(f"[{kname}] alphabet operations never exercised: {never}")
         for r in recs:
             if core.nontrivial(r):
                 classes.add((kname,) + core.shape_class(r))
